@@ -25,13 +25,15 @@ def suite(wt):
     return rc == 0 and m is not None and m.group(1) == m.group(2) == "1945", (m.group(0) if m else out[-600:])
 
 
-def verify(pid, k):
+def verify(pid, k, outdir="out", tag="m"):
     wt = "/tmp/wt/%s" % pid
-    out = os.path.join(wt, "out")
+    out = os.path.join(wt, outdir)
     patch = os.path.join(out, "mutant%s.diff" % k)
     demo = os.path.join(out, "demo%s.rs" % k)
     meta = json.load(open(os.path.join(out, "meta%s.json" % k)))
-    release = "--release" in meta.get("demo_command", "")
+    dc = meta.get("demo_command", "")
+    # the command itself, not remarks after it ("... passes with --release")
+    release = "--release" in dc.split("(")[0].split(";")[0] and os.environ.get("SEED_NO_RELEASE") is None
     sh(["git", "checkout", "--", "."], wt)
     shutil.rmtree(os.path.join(wt, "tests"), ignore_errors=True)
     res = {}
@@ -60,7 +62,7 @@ def verify(pid, k):
     good = res["suite_passes_with_change"] and res["demo_fails_with_change"] and res["demo_passes_without_change"] and res.get("feature_suite_passes_with_change", True)
     print(pid, k, "CONFIRMED" if good else "REJECTED", {a: b for a, b in res.items() if "output" not in a})
     if good:
-        name = "%s-m%s" % (pid, k)
+        name = "%s-%s%s" % (pid, tag, k)
         d = "/verif/seeded/" + name
         os.makedirs(d, exist_ok=True)
         shutil.copy(patch, os.path.join(d, "patch.diff"))
@@ -111,6 +113,6 @@ def trial(name, ids):
 
 if __name__ == "__main__":
     if sys.argv[1] == "verify":
-        sys.exit(verify(sys.argv[2], sys.argv[3]))
+        sys.exit(verify(*sys.argv[2:]))
     if sys.argv[1] == "trial":
         sys.exit(trial(sys.argv[2], sys.argv[3:]))
